@@ -21,7 +21,8 @@ def _weighted(pairs):
 def charts(draw, max_states=12, max_depth=4, p_hist=0.4, allow_final=True, root_final=0.3,
            n_events=3, min_tr=3, max_tr=14, p_orth_root=0.3, mix=DEFAULT_MIX, p_eventless=0.2,
            p_sends=0.0, p_notify=0.0, send_delays=False, force_history=False,
-           priorities=PRIORITIES, dup_tr=0.0, name_fmt='s%02d', allow_orthogonal=True, orth_weight=None, p_hist2=0.25):
+           priorities=PRIORITIES, dup_tr=0.0, name_fmt='s%02d', allow_orthogonal=True, orth_weight=None, p_hist2=0.25,
+           p_aguard=0.0):
     """A well-formed chart spec (DESIGN.md section 2), built by construction."""
     nodes = []
     budget = [max_states - 1]
@@ -161,6 +162,11 @@ def charts(draw, max_states=12, max_depth=4, p_hist=0.4, allow_final=True, root_
                     'guard': None, 'action': None,
                     'priority': draw(st.sampled_from(priorities))})
     spec['transitions'] = trs
+    if p_aguard:
+        # some guards also depend on the live configuration: gv[tid] and active(<state>)
+        for tr in trs:
+            if draw(st.floats(0, 1)) < p_aguard:
+                tr['aguard'] = draw(st.sampled_from(allnames))
 
     if p_sends or p_notify:
         def sends():
